@@ -498,6 +498,7 @@ func concScenario(name string, maxOpen, prefetch, readers int, appendWhileReadin
 		}
 		stable := len(data) // bytes appended before the readers start
 		res := make([]string, readers)
+		vsched.Focus()
 		for r := 0; r < readers; r++ {
 			r := r
 			vsched.Spawn(func() {
